@@ -68,6 +68,14 @@ def run(ctx):
     S = Schema(fx)
     closure = sorted(S.wire_closure(ROOTS))
     ctx.note("wire closure of Metablock: %s" % closure)
+    check_struct_schemas(ctx, S, closure, "C16/D1")
+    check_tables(ctx, S, "C16/D2")
+    check_shims(ctx, S, "C16/D3")
+    check_stored_as_read(ctx, S, "C16/D4")
+
+
+def check_struct_schemas(ctx, S, closure, RULE, ser_only=False):
+    fx = ctx.fx
     # ---- D1
     for a in closure:
         s, d = S.ser.get(a), S.de.get(a)
@@ -96,14 +104,25 @@ def run(ctx):
             emitted_fields = {e["field"] for e in s["entries"]} | set(s["flatten"])
             if emitted_fields != set(fields):
                 probs.append("fields not serialised: %s" % sorted(set(fields) - emitted_fields))
-            ctx.inst("C16/D1", "%s schema symmetric" % a, not probs, "; ".join(probs) if probs else "keys %s both ways%s" % (
+            ctx.inst(RULE, "%s schema symmetric" % a, not probs, "; ".join(probs) if probs else "keys %s both ways%s" % (
                 sorted(sk), (", flattened: %s" % s["flatten"]) if s["flatten"] else ""), s["at"])
         elif s["derived"] and d["derived"] and adt["kind"] == "Enum" and s["variants"]:
             sv = sorted(v["wire"] for v in s["variants"])
             dv = sorted(d["keys"])
-            ctx.inst("C16/D1", "%s variant names symmetric" % a, sv == dv, "written %s, accepted %s" % (sv, dv), s["at"])
+            ctx.inst(RULE, "%s variant names symmetric" % a, sv == dv, "written %s, accepted %s" % (sv, dv), s["at"])
         elif s["derived"] and d["derived"] and "serialize_newtype_struct" in s["kind"]:
-            ctx.inst("C16/D1", "%s newtype both ways" % a, "deserialize_newtype_struct" in d["kind"], "ser %s / de %s" % (s["kind"], d["kind"]), s["at"])
+            ctx.inst(RULE, "%s newtype both ways" % a, "deserialize_newtype_struct" in d["kind"], "ser %s / de %s" % (s["kind"], d["kind"]), s["at"])
+
+
+def _rule_fns(fx, S):
+    rs = S.ser_fn.get("models::layout::rule::ArtifactRule")
+    vis = [g for g in fx.doc["fns"] if g["path"].startswith("<models::layout::rule::ArtifactRuleVisitor as") and g["path"].endswith("::visit_seq")]
+    asref = [g for g in fx.doc["fns"] if g["path"] == "<models::layout::rule::Artifact as std::convert::AsRef<str>>::as_ref"]
+    return rs, vis, asref
+
+
+def check_tables(ctx, S, RULE):
+    fx = ctx.fx
     # ---- D2 tables
     rs = S.ser_fn.get("models::layout::rule::ArtifactRule")
     vis = [g for g in fx.doc["fns"] if g["path"].startswith("<models::layout::rule::ArtifactRuleVisitor as") and g["path"].endswith("::visit_seq")]
@@ -111,10 +130,10 @@ def run(ctx):
     if rs and len(vis) == 1 and len(asref) == 1:
         emitted = {x for x in str_consts(fx, rs) | str_consts(fx, asref[0]) if re.match(r"^[A-Z]+$", x)}
         accepted = {x for x in str_consts(fx, vis[0], only_compared=True) if re.match(r"^[A-Z]+$", x)}
-        ctx.inst("C16/D2", "ArtifactRule keyword tables", emitted == accepted == RULE_TOKENS,
+        ctx.inst(RULE, "ArtifactRule keyword tables", emitted == accepted == RULE_TOKENS,
                  "emitted %s; accepted %s" % (sorted(emitted), sorted(accepted)), rs["at"])
     else:
-        ctx.bad("C16/D2", "ArtifactRule keyword tables", "hand-written rule (de)serialiser not found")
+        ctx.bad(RULE, "ArtifactRule keyword tables", "hand-written rule (de)serialiser not found")
     kt_disp = [g for g in fx.doc["fns"] if g["path"] == "<crypto::KeyType as std::fmt::Display>::fmt"]
     kt_from = [g for g in fx.doc["fns"] if g["path"] == "<crypto::KeyType as std::str::FromStr>::from_str"]
     if len(kt_disp) == 1 and len(kt_from) == 1:
@@ -122,11 +141,15 @@ def run(ctx):
         t2 = shared.string_to_enum_table(fx, kt_from[0], "crypto::KeyType")
         t1n = {k: v for k, v in t1.items() if k != "Unknown"}
         t2n = {k: v for k, v in t2.items() if k != "Unknown"}
-        ctx.inst("C16/D2", "KeyType Display / FromStr tables", bool(t1n) and t1n == t2n, "display %s; from_str %s" % (
+        ctx.inst(RULE, "KeyType Display / FromStr tables", bool(t1n) and t1n == t2n, "display %s; from_str %s" % (
             {k: sorted(v) for k, v in t1n.items()}, {k: sorted(v) for k, v in t2n.items()}), kt_disp[0]["at"])
     else:
-        ctx.bad("C16/D2", "KeyType tables", "Display / FromStr impls not found")
-    canon.check_codec(ctx, "C16/D2")
+        ctx.bad(RULE, "KeyType tables", "Display / FromStr impls not found")
+    canon.check_codec(ctx, RULE)
+
+
+def check_shims(ctx, S, RULE, directions=("from", "try_into")):
+    fx = ctx.fx
     # ---- D3 shims
     for (shim, meta, typ_const) in (("models::layout::Layout", "models::layout::metadata::LayoutMetadata", "layout"),
                                     ("models::link::Link", "models::link::metadata::LinkMetadata", "link")):
@@ -135,14 +158,14 @@ def run(ctx):
         adt = fx.adts.get(shim)
         madt = fx.adts.get(meta)
         if not ff or not tf or not adt or not madt:
-            ctx.bad("C16/D3", shim, "shim conversion functions not found")
+            ctx.bad(RULE, shim, "shim conversion functions not found")
             continue
         fb = body_of(fx, ff["key"])
         ctx.touch_body(fb)
         sites = [st for i, blk in enumerate(fb.blocks) for st in blk["stmts"] if st["k"] == "assign" and st["rv"].get("adt") == shim and i in fb.reach]
         mfields = [fl["name"] for fl in madt["variants"][0]["fields"]]
         if len(sites) != 1:
-            ctx.bad("C16/D3", "%s::from" % shim, "expected one construction, found %d" % len(sites))
+            ctx.bad(RULE, "%s::from" % shim, "expected one construction, found %d" % len(sites))
         else:
             rv = sites[0]["rv"]
             used = set()
@@ -151,20 +174,20 @@ def run(ctx):
                 lv = [l for l in lv if not (l.kind == "agg" and l.data[2].get("agg") == "closure")]
                 if fname == "typ":
                     okf = bool(lv) and all(l.kind == "const" and l.data.get("str") == typ_const for l in lv)
-                    ctx.inst("C16/D3", "%s::from sets _type" % shim.split("::")[-1], okf, "_type <- {%s}" % ", ".join(leaf_s(fb, l) for l in lv), ff["at"])
+                    ctx.inst(RULE, "%s::from sets _type" % shim.split("::")[-1], okf, "_type <- {%s}" % ", ".join(leaf_s(fb, l) for l in lv), ff["at"])
                     continue
                 srcs = {l.path[0][1] for l in lv if l.kind == "param" and l.data == 1 and l.path}
                 okf = bool(lv) and all(l.kind == "param" and l.data == 1 for l in lv) and len(srcs) == 1
                 used |= srcs
                 # same-named (environment <-> env is the wire rename of the same field)
                 same = srcs == {fname}
-                ctx.inst("C16/D3", "%s::from %s" % (shim.split("::")[-1], fname), okf and same, "%s <- {%s}" % (fname, ", ".join(leaf_s(fb, l) for l in lv)), ff["at"])
-            ctx.inst("C16/D3", "%s::from covers every metadata field" % shim.split("::")[-1], used == set(mfields), "metadata fields used: %s of %s" % (sorted(used), sorted(mfields)), ff["at"])
+                ctx.inst(RULE, "%s::from %s" % (shim.split("::")[-1], fname), okf and same, "%s <- {%s}" % (fname, ", ".join(leaf_s(fb, l) for l in lv)), ff["at"])
+            ctx.inst(RULE, "%s::from covers every metadata field" % shim.split("::")[-1], used == set(mfields), "metadata fields used: %s of %s" % (sorted(used), sorted(mfields)), ff["at"])
         tb = body_of(fx, tf["key"])
         ctx.touch_body(tb)
         news = tb.calls_named(meta + "::new")
         if len(news) != 1:
-            ctx.bad("C16/D3", "%s::try_into" % shim, "expected one %s::new call, found %d" % (meta, len(news)))
+            ctx.bad(RULE, "%s::try_into" % shim, "expected one %s::new call, found %d" % (meta, len(news)))
         else:
             nf = fx.fn(meta + "::new")
             nb = body_of(fx, nf["key"])
@@ -186,7 +209,7 @@ def run(ctx):
                         okall = False
                         det.append("%s <- {%s}" % (fl, ", ".join(leaf_s(tb, l) for l in al)))
                 used |= srcs
-            ctx.inst("C16/D3", "%s::try_into moves every field into the same-named metadata field" % shim.split("::")[-1], okall and used == set(mfields),
+            ctx.inst(RULE, "%s::try_into moves every field into the same-named metadata field" % shim.split("::")[-1], okall and used == set(mfields),
                      "fields used %s; problems %s" % (sorted(used), det), tf["at"])
             # _type is checked
             chk = False
@@ -199,15 +222,20 @@ def run(ctx):
                         if ul and all(l.kind == "param" and l.data == 1 and l.path[:1] == (("f", "typ"),) for l in ul) and \
                                 vl and all(l.kind == "const" and l.data.get("str") == typ_const for l in vl):
                             chk = True
-            ctx.inst("C16/D3", "%s::try_into checks _type" % shim.split("::")[-1], chk,
+            ctx.inst(RULE, "%s::try_into checks _type" % shim.split("::")[-1], chk,
                      "the shim's `_type` is compared with %r: %s%s" % (typ_const, chk, "" if chk else
                       " - any `_type` is accepted and silently re-serialised as %r" % typ_const), tf["at"])
         # the metadata type's own Serialize / Deserialize delegate to the shim
         s, d = S.ser.get(meta), S.de.get(meta)
         sd = {x.get("ty") or x.get("fn") for x in (s["delegates"] if s else [])}
         dd = {x.get("ty") or x.get("fn") for x in (d["delegates"] if d else [])}
-        ctx.inst("C16/D3", "%s (de)serialises through %s" % (meta.split("::")[-1], shim.split("::")[-1]),
+        ctx.inst(RULE, "%s (de)serialises through %s" % (meta.split("::")[-1], shim.split("::")[-1]),
                  {shim, shim + "::from"} <= sd and {shim, shim + "::try_into"} <= dd, "serialize delegates %s; deserialize delegates %s" % (sorted(sd), sorted(dd)))
+
+
+def check_stored_as_read(ctx, S, RULE):
+    fx = ctx.fx
+    rs, vis, asref = _rule_fns(fx, S)
     # ---- D4 decoded values stored unmodified
     if len(vis) == 1:
         vb = body_of(fx, vis[0]["key"])
@@ -233,7 +261,7 @@ def run(ctx):
                         okv = bool(lv) and all((l.kind == "call" and callee_name(l.data[1]) == "serde::de::SeqAccess::next_element" and set(l.via) <= allowed)
                                                or (l.kind == "agg" and l.data[2].get("variant") == "None") for l in lv)
                         if not okv:
-                            ctx.bad("C16/D4", "ArtifactRule::%s.%s stored as read" % (rv["variant"], fname),
+                            ctx.bad(RULE, "ArtifactRule::%s.%s stored as read" % (rv["variant"], fname),
                                     "value is transformed between the wire and the stored rule: <- {%s}" % ", ".join(leaf_s(vb, l) for l in lv), st["at"])
-        ctx.ok("C16/D4", "rule elements stored as read", "%d rule payload fields examined: each is a next_element() result (possibly wrapped in Some)" % n)
-    keys.check_pubkey_deser(ctx, "C16/D4")
+        ctx.ok(RULE, "rule elements stored as read", "%d rule payload fields examined: each is a next_element() result (possibly wrapped in Some)" % n)
+    keys.check_pubkey_deser(ctx, RULE)
